@@ -1,8 +1,9 @@
 CONSTANTS
   HashMode = "real"
   Bug = "none"
-  Sweeps = {"pairs", "deep"}
+  Sweeps = {"near", "deepq"}
   PairDepth = 2
+  NearDepth = 2
   DeepDepth = 2
   EmitCases = TRUE
 INIT Init
